@@ -3,7 +3,8 @@ C03 — only justified work is re-executed.
 
 PART 1 (namespace `Qbice.CoreFw`): the extended core engine model (all five kinds, the repaired
 design; `Model/EngineCore.lean`, second half).  The `log` field of the state records every executor
-invocation.  Proved for programs in which NO PROJECTION READS A PROJECTION (`NoProjOverProj p`); the
+invocation.  Proved under `Shape p` = `NoProjOverProj p ∨ StaticProj p` (no projection reads a
+projection, or every projection has a value-independent read sequence; see `Props/C01.lean`); the
 statement for all programs is `C03_exec_justified_full_statement`.  A third reason for an execution exists — a
 projection re-executed by the backward projection of a firewall / projection below it (finding
 F13's looseness: the stored value of that callee changed at some point since the projection's last
@@ -35,13 +36,13 @@ def C03_exec_justified_full_statement : Prop :=
     of the user either has no node in the start state, or its node recorded a dependency `(d, o)`
     whose from-scratch value on the committed inputs is no longer `o` — firewalls included: a
     firewall whose recomputation returns the stored value lets nothing above it run.
-    PARTIAL: programs without a projection over a projection. -/
-theorem core_exec_justified_partial {p : Program} (wf : WF p) (pf : NoProjOverProj p) {s : St} (inv : Inv p s)
+    PARTIAL: `Shape p` = no projection over a projection, or all projections static. -/
+theorem core_exec_justified_partial {p : Program} (wf : WF p) (sh : Shape p) {s : St} (inv : Inv p s)
     {k fuel : Nat} (hk : k < fuel) {v : Val} {s' : St} (h : query p fuel .user k s = .ok (v, s')) :
     ∃ new, s'.log = s.log ++ new ∧
       ∀ x, x ∈ new → s.nodes x = none ∨
         (∃ n d o, s.nodes x = some n ∧ (d, o) ∈ n.deps ∧ cur p s d ≠ some o) ∨ Forced s s' x := by
-  obtain ⟨_, f, _⟩ := (query_spec wf pf hk inv).ok h
+  obtain ⟨_, f, _⟩ := (query_spec wf sh hk inv).ok h
   obtain ⟨new, h1, _, h3, _⟩ := f.log
   refine ⟨new, h1, fun x hx => ?_⟩
   rcases (h3 x hx).1 with hj | hf
@@ -50,15 +51,30 @@ theorem core_exec_justified_partial {p : Program} (wf : WF p) (pf : NoProjOverPr
     · exact Or.inr (Or.inl h0)
   · exact Or.inr (Or.inr hf)
 
+/-- class B (static projection chains), restated -/
+theorem core_exec_justified_classB_partial {p : Program} (wf : WF p) (sp : StaticProj p) {s : St}
+    (inv : Inv p s) {k fuel : Nat} (hk : k < fuel) {v : Val} {s' : St}
+    (h : query p fuel .user k s = .ok (v, s')) :
+    ∃ new, s'.log = s.log ++ new ∧
+      ∀ x, x ∈ new → s.nodes x = none ∨
+        (∃ n d o, s.nodes x = some n ∧ (d, o) ∈ n.deps ∧ cur p s d ≠ some o) ∨ Forced s s' x :=
+  core_exec_justified_partial wf (Or.inr sp) inv hk h
+
+/-- non-vacuity of class B: the chain of three projections `exS` after the firewall changed: every
+    node of the chain is re-executed once -/
+example : WF exS ∧ StaticProj exS ∧ Inv exS exSU ∧
+    (query exS (fuelFor exS) .user 5 { exSU with log := [] }).toOption.map (·.2.log) = some [1, 2, 3, 4, 5] :=
+  ⟨exS_wf, exS_static, exSU_inv, by decide⟩
+
 /-- "at most one execution per key between two input sessions": the keys executed by a query are
     pairwise distinct, none of them was verified in the current epoch before, and all of them are
-    verified afterwards.  PARTIAL: programs without a projection over a projection. -/
-theorem core_exec_once_partial {p : Program} (wf : WF p) (pf : NoProjOverProj p) {s : St} (inv : Inv p s)
+    verified afterwards.  PARTIAL: `Shape p` = no projection over a projection, or all projections static. -/
+theorem core_exec_once_partial {p : Program} (wf : WF p) (sh : Shape p) {s : St} (inv : Inv p s)
     {k fuel : Nat} (hk : k < fuel) {v : Val} {s' : St} (h : query p fuel .user k s = .ok (v, s')) :
     ∃ new, s'.log = s.log ++ new ∧ new.Nodup ∧
       ∀ x, x ∈ new → (¬ ∃ n, s.nodes x = some n ∧ n.lastVerified = s.epoch) ∧
         ∃ n', s'.nodes x = some n' ∧ n'.lastVerified = s'.epoch := by
-  obtain ⟨_, f, _⟩ := (query_spec wf pf hk inv).ok h
+  obtain ⟨_, f, _⟩ := (query_spec wf sh hk inv).ok h
   obtain ⟨new, h1, h2, h3, _⟩ := f.log
   refine ⟨new, h1, h2, fun x hx => ⟨?_, (h3 x hx).2⟩⟩
   rcases (h3 x hx).1 with h | h
@@ -66,8 +82,8 @@ theorem core_exec_once_partial {p : Program} (wf : WF p) (pf : NoProjOverProj p)
   · exact h.1
 
 /-- "an external-input executor runs on first demand and under `refresh`, never otherwise".
-    PARTIAL (first half): programs without a projection over a projection. -/
-theorem core_external_only_on_demand_or_refresh_partial {p : Program} (wf : WF p) (pf : NoProjOverProj p)
+    PARTIAL (first half): `Shape p`. -/
+theorem core_external_only_on_demand_or_refresh_partial {p : Program} (wf : WF p) (sh : Shape p)
     {s : St} (inv : Inv p s) :
     (∀ {k fuel : Nat}, k < fuel → ∀ {v : Val} {s' : St}, query p fuel .user k s = .ok (v, s') →
       ∃ new, s'.log = s.log ++ new ∧
@@ -77,7 +93,7 @@ theorem core_external_only_on_demand_or_refresh_partial {p : Program} (wf : WF p
         ∀ x, x ∈ new → Write.refresh ∈ ws ∧ ∃ n, s.nodes x = some n ∧ n.kind = .external) := by
   refine ⟨?_, ?_⟩
   · intro k fuel hk v s' h
-    obtain ⟨_, f, _⟩ := (query_spec wf pf hk inv).ok h
+    obtain ⟨_, f, _⟩ := (query_spec wf sh hk inv).ok h
     obtain ⟨new, h1, _, h3, _⟩ := f.log
     refine ⟨new, h1, ?_⟩
     intro x d hx hp hd
@@ -108,22 +124,22 @@ theorem core_refresh_reexecutes_all_externals {p : Program} {s : St} {rs : List 
 /-- non-vacuity: the firewall diamond after a session that the firewall absorbs: only the firewall
     runs (justified by its changed input), nothing above it; after a session that changes it,
     everything above runs -/
-example : WF exF ∧ NoProjOverProj exF ∧ Inv exF exFS ∧ Inv exF exFU ∧
+example : WF exF ∧ Shape exF ∧ Inv exF exFS ∧ Inv exF exFU ∧
     (query exF (fuelFor exF) .user 5 { exFS with log := [] }).toOption.map (·.2.log) = some [2] ∧
     (query exF (fuelFor exF) .user 5 { exFU with log := [] }).toOption.map (·.2.log) = some [2, 3, 4, 5] :=
-  ⟨exF_wf, exF_noProj.over, exFS_inv, exFU_inv, by decide, by decide⟩
+  ⟨exF_wf, Or.inl exF_noProj.over, exFS_inv, exFU_inv, by decide, by decide⟩
 
 /-- the same over any number of rounds run within one epoch: all executions are of distinct keys
     and each is justified with respect to the state before the first round.
-    PARTIAL: programs without a projection over a projection. -/
-theorem core_rounds_exec_once_partial {p : Program} (wf : WF p) (pf : NoProjOverProj p) {s : St} (inv : Inv p s)
+    PARTIAL: `Shape p` = no projection over a projection, or all projections static. -/
+theorem core_rounds_exec_once_partial {p : Program} (wf : WF p) (sh : Shape p) {s : St} (inv : Inv p s)
     {kss : List (List Key)} {outs : List (List Val)} {s' : St}
     (h : runRounds p kss s = .ok (outs, s')) :
     ∃ new, s'.log = s.log ++ new ∧ new.Nodup ∧
       ∀ x, x ∈ new → (¬ ∃ n, s.nodes x = some n ∧ n.lastVerified = s.epoch) ∧
         (s.nodes x = none ∨ (∃ n d o, s.nodes x = some n ∧ (d, o) ∈ n.deps ∧ cur p s d ≠ some o) ∨
           Forced s s' x) := by
-  obtain ⟨_, _, f⟩ := (runRounds_spec wf pf kss s inv).ok h
+  obtain ⟨_, _, f⟩ := (runRounds_spec wf sh kss s inv).ok h
   obtain ⟨new, h1, h2, h3, _⟩ := f.log
   refine ⟨new, h1, h2, fun x hx => ?_⟩
   rcases (h3 x hx).1 with hj | hf
